@@ -133,7 +133,11 @@ def run_cases(rng, n):
         # the economy factors give the bit-exact singular values the rule is applied to
         eco = pykoop.Tsvd().fit(X)
         sig = eco.singular_values_
-        trials = [('economy', None), ('rank', int(rng.integers(0, k + 3)))]
+        r_ = int(rng.integers(0, k + 3))
+        # the rank as a python int and as what numpy hands out (integer scalar, 0-d array, result of matrix_rank)
+        trials = [('economy', None), ('rank', r_), ('rank', [np.int64, np.int32, np.array, np.uint8][cid % 4](max(1, r_ - 1)))]
+        # a cutoff as a numpy float scalar
+        trials.append(('cutoff', np.float64(sig[-1])))
         # cutoffs: between values, above all, below all, and bit-exact ties
         cuts = [float(sig[0]) + 1.0, 0.0]
         if k >= 2:
@@ -181,7 +185,8 @@ def run_cases(rng, n):
                     continue
                 ok, info, full, r = False, dict(what=f'Tsvd.fit raised {type(e).__name__}: {e}'), None, None
             if not ok:
-                bad.append(dict(info, truncation=trunc, truncation_param=param, X=X.tolist(), matrix_kind=kind,
+                bad.append(dict(info, truncation=trunc, truncation_param=(param.item() if isinstance(param, (np.generic, np.ndarray)) else param),
+                                parameter_type=type(param).__name__, X=X.tolist(), matrix_kind=kind,
                                 reused_estimator=reuse is not None))
                 continue
             # M2: rank chosen by the implementation vs the Coq rank rule on order codes of ITS OWN
@@ -196,7 +201,7 @@ def run_cases(rng, n):
                 else:
                     tr = f'(Cutoff {cc}%Z)'
                 batch.add('', [(f'{trunc}', f'Nat.eqb (List.length (retained Z.ltb {tr} {sg_})) {int(r)}%nat')],
-                          dict(truncation=trunc, truncation_param=param, X=X.tolist(), rank_impl=int(r),
+                          dict(truncation=trunc, truncation_param=(param.item() if isinstance(param, (np.generic, np.ndarray)) else param), X=X.tolist(), rank_impl=int(r),
                                singular_values=sig.tolist()))
             else:
                 import optht
